@@ -276,6 +276,17 @@ func unsatisfiedTerminal(ix *lifeIndex, d, cond string) *sim.Event {
 		if t.Code != 0 || t.Str == types.ProcessStateError {
 			return t
 		}
+		// ground truth: the last command of the dependency exited non-zero,
+		// whatever exit code is reported with the terminal status
+		var last *launchRec
+		for _, l := range p.Launches {
+			if !l.Failed && l.ExitSeq >= 0 && l.ExitSeq < t.Seq {
+				last = l
+			}
+		}
+		if last != nil && last.ExitCode != 0 {
+			return t
+		}
 	case types.ProcessConditionHealthy, types.ProcessConditionLogReady:
 		if !gateSatisfied(ix, d, cond, t.Seq) {
 			return t
@@ -402,6 +413,26 @@ func oracleCompletion(lr *LifeRun, ix *lifeIndex, r *fw.Result) {
 	spec := lr.Spec
 	if lr.Outcome == sim.RunHang {
 		r.Add("C04", hangKey(lr), "Run() did not return: no event for the silence bound while no command is alive and no request is pending; non-terminal: %s", hangKey(lr))
+		return
+	}
+	if lr.Outcome == sim.RunStalled && len(ix.shutdownEnter) > 0 && len(apiCallsFor(ix.ev, "", "shutdown", "start", "restart", "scale", "update")) == 0 {
+		// an exit_on_* trigger shut the project down (no API request involved)
+		// and the shutdown call returned, yet a command is alive and nothing
+		// will ever end it: "all other processes are shut down" is violated
+		ret := -1
+		for k := range ix.ev {
+			if ix.ev[k].Kind == sim.EvYield && ix.ev[k].Str == "shutdown.return" {
+				ret = ix.ev[k].Seq
+				break
+			}
+		}
+		if ret >= 0 {
+			for _, n := range ix.names {
+				if ix.aliveAt(n, len(ix.ev)+1) {
+					r.Add("C04", "not-shut-down-after-trigger", "an exit_on_* trigger shut the project down (shutdown returned at seq %d) but a command of %s is still alive and Run() keeps waiting for it", ret, n)
+				}
+			}
+		}
 		return
 	}
 	if lr.Outcome != sim.RunReturned {
